@@ -109,4 +109,13 @@ PROPS = {
         "assumptions": [],
         "level_note": "a query never changes any (id,address) slot; a response whose id routes nowhere changes nothing; named nodes are offered as questionable; own id and router addresses are never live after any handler step (C08 invariant along TReach). Known finding F12: the refresh action prefix is accepted with any message id",
     },
+    "C17": {
+        "engines": [{"name": "handler", "quick": 60, "thorough": 1500, "oracle_tag": "C17"},
+                    {"name": "codec", "quick": 40, "thorough": 1000, "oracle_tag": "C13", "op_filter": ["enc"]}],
+        "constants": ["MAX_VALUES_V4", "MAX_VALUES_V6", "MAX_TOKEN_LEN", "RECV_BUFFER_LEN", "REPLY_NODES_PER_FAMILY", "REPLY_NODES_PER_FAMILY_V6"],
+        "trusted": COMMON_TRUST + ["the size theorems are about the encoder model printVal/msgTree, which C13 proves to be the BEP encoding and the codec engine ties byte-for-byte to the real serializer",
+                                   "transaction ids of our own queries are 8 bytes (C19), tokens we issue are 20 bytes (SHA-1); echoed transaction ids are assumed <= 32 bytes in the reply theorem (the [C17] oracle measures the real datagrams, incl. longer echoed ids)"],
+        "assumptions": ["echoed transaction id <= 32 bytes for the 1500-byte reply theorem (the formula theorem is stated for any bound)"],
+        "level_note": "size formula 653+8v / 653+21v for replies, structural bounds of handler replies (<= 8 nodes per family, <= 100/40 peers, 20-byte token), fixed query sizes, announce <= 420 with a recorded token, error replies < 70+tid proved for all states; every datagram the real handler emits in lockstep runs is measured by the [C17] oracle. Findings F17 (unbounded values list) and F17b (unbounded echoed token) were fixed in /repo",
+    },
 }
